@@ -63,6 +63,37 @@ def mutations(rng, k, msg, sig, tier):
     out.append(("sig/extended", msg, sig + rng.bytes_(n), k.vk))
     out.append(("pk/truncated", msg, sig, k.vk[:-1]))
     out.append(("pk/extended", msg, sig, k.vk + b"\7"))
+    # consistent re-typing: change a type code AND resize the dependent part so that the whole signature still parses
+    for li, l in enumerate(lv):
+        o = l["end"] - n * l["h"] - 4            # offset of the LMS type of this signature
+        for new_lms in (1, 5, 6, 7):
+            if new_lms == l["lms"]:
+                continue
+            nh = LMS_H[new_lms]
+            path = sig[o + 4:o + 4 + n * l["h"]]
+            new_path = (path + rng.bytes_(n * nh))[:n * nh]
+            out.append(("retype/lms-%s" % ("taller" if nh > l["h"] else "shorter"), msg,
+                        sig[:o] + u32(new_lms) + new_path + sig[l["end"]:], k.vk))
+        for new_ots in (1, 2, 3, 4):
+            if new_ots == l["ots"]:
+                continue
+            np_ = CHAINS[(n, OTS_W[new_ots])]
+            ys = sig[l["start"] + 8 + n:l["start"] + 8 + n + n * l["p"]]
+            new_ys = (ys + rng.bytes_(n * np_))[:n * np_]
+            out.append(("retype/ots", msg, sig[:l["start"] + 4] + u32(new_ots) + sig[l["start"] + 8:l["start"] + 8 + n] + new_ys +
+                        sig[l["start"] + 8 + n + n * l["p"]:], k.vk))
+        # leaf index just outside / far outside the tree, everything else intact
+        for q in (1 << l["h"], (1 << l["h"]) + l["q"], 2 ** 32 - 1):
+            out.append(("q/out-of-range", msg, sig[:l["start"]] + u32(q) + sig[l["start"] + 4:], k.vk))
+        if "child_pk" in l:
+            # the signed child key announces other types than the signature that is verified with it
+            for off, vals in ((l["child_pk_off"], (1, 5, 6)), (l["child_pk_off"] + 4, (1, 2, 3, 4))):
+                for v in vals:
+                    out.append(("retype/child-key-field", msg, sig[:off] + u32(v) + sig[off + 4:], k.vk))
+    for new_lms in (1, 5, 6, 7):
+        out.append(("retype/pk-lms", msg, sig, k.vk[:4] + u32(new_lms) + k.vk[8:]))
+    for new_ots in (1, 2, 3, 4):
+        out.append(("retype/pk-ots", msg, sig, k.vk[:8] + u32(new_ots) + k.vk[12:]))
     # level-count games
     out.append(("levels/sig+1", msg, u32(nspk + 1) + sig[4:], k.vk))
     out.append(("levels/pk+1", msg, sig, u32(nspk + 2) + k.vk[4:]))
